@@ -41,7 +41,7 @@ CLAIMED["C12"] = dict(
 
 CLAIMED["C09"] = dict(
   text="Bounded symbolic verification (SMT over go/ssa). Stateful.match and the signed-token audience test matchGroup are shown EQUIVALENT to a direct specification of scope (equal, or covering subgroups and an ancestor by whole path components) for all byte strings up to the bound - the region where 'a' vs 'ab', trailing slashes and empty components live; Stateful.Check with a symbolic clock: success only with an expiry in the future and a not-before in the past, never for another group, and it returns exactly the token's permissions and username.",
-  note="Bounds: token group 0..3 (thorough 5) bytes, target 1..5 (8) bytes, all byte values; clock any instant 1970-2200, offsets within +-1 year and >2 s away from the clock (so a counterexample replays under the real clock). Outside: signature verification and key/alg selection inside golang-jwt (library, stub would only restate its contract), url.Parse, JSON; Description.GetPermission's token branch (username override / duplicate rule) needs token.Parse stubbed and is listed in DESIGN 4-C09 as not yet encoded. Trusted: go/ssa, gosmt, z3/cvc5, the time.Now contract stub.",
+  note="Bounds: token group 0..3 (thorough 5) bytes, target 1..5 (8) bytes, all byte values; clock any instant 1970-2200, offsets within +-1 year and >2 s away from the clock (so a counterexample replays under the real clock). Outside: signature verification and key/alg selection inside golang-jwt (library, stub would only restate its contract), url.Parse, JSON; Description.GetPermission's token branch (token username overrides, client-chosen name never shadows a configured user, invalid names refused, permissions exactly the token's) IS decided, around a model of token.Parse. Trusted: go/ssa, gosmt, z3/cvc5, the time.Now contract stub.",
   technique="bounded symbolic execution of go/ssa with SMT (reference-equivalence on all byte strings up to the bound; symbolic clock)",
   ref="4-C09")
 CLAIMED["C18"] = dict(
@@ -73,7 +73,7 @@ CLAIMED["C10"] = dict(
   ref="4-C10")
 CLAIMED["C14"] = dict(
   text="Bounded symbolic verification (SMT over go/ssa), inductive steps of the real group.AddClient / DelClient from an arbitrary group state with recording fake clients: after a successful join the newcomer is told 'join', about itself and about every member exactly once with true usernames and permissions, every member is told about the newcomer exactly once and nothing else; after a leave every remaining member is told 'delete' exactly once; a refused join tells nobody anything; deleting a non-member changes nothing. Exactly-once per step + arbitrary pre-state gives convergence of each member's list for join/leave histories of any length.",
-  note="Bounds: 0..2 (thorough 3) members. NOT encoded: rtpconn's pushClientAction group-name filter, the permission/data change broadcasts (permissionsChangedAction, setdata) and the order in which queued actions are drained (the schedules part of the property) - these need the rtpconn client loop with its websocket writer. Trusted: go/ssa, gosmt, z3/cvc5, the Add/GetPermission models.",
+  note="Bounds: 0..2 (thorough 3) members. Also: the group-name filter of rtpconn's handleAction(pushClientAction) (no event about one group reaches a member of another). NOT encoded: the permission/data change broadcasts (permissionsChangedAction, setdata) and the order in which queued actions are drained (the schedules part of the property) - these need the rtpconn client loop with its websocket writer. Trusted: go/ssa, gosmt, z3/cvc5, the Add/GetPermission models.",
   technique="inductive-step symbolic execution of go/ssa with SMT, ghost event logs in fake clients",
   ref="4-C14")
 
@@ -84,7 +84,7 @@ CLAIMED["C11"] = dict(
   ref="4-C11")
 CLAIMED["C15"] = dict(
   text="Symbolic execution (SMT over go/ssa) of the REAL handleClientMessage chat/usermessage path for a member (real join) with the rights of any role and SYMBOLIC source, username and destination bytes: a claimed id or name other than the sender's own is a ProtocolError (which closes the connection) with no effect at all; a forwarded message carries the true id / name or nothing, is privileged exactly when the sender holds op, keeps dest/kind/noecho/value; broadcast goes to every member minus the sender on noecho, a directed message to exactly the named member; only broadcast chat enters the history (real AddToChatHistory).",
-  note="Bounds: source 0..1 bytes, username absent or 2 bytes, destination 0..1 bytes over all byte values; 2 members; 5 roles x flags. NOT encoded here: the 50-entry bound / age bound / ClearChatHistory selection of the history (group.AddToChatHistory, discardObsoleteHistory are executed but only for short histories) and the history replay on join - see DESIGN 4-C15 d. broadcast is a recording model (real one marshals JSON). Trusted: go/ssa, gosmt, z3/cvc5.",
+  note="Bounds: source 0..1 bytes, username absent or 2 bytes, destination 0..1 bytes over all byte values; 2 members; 5 roles x flags. Also decided (group package): AddToChatHistory as an inductive step from every prior length 0..50 (bound, order, oldest dropped), the age bound of GetChatHistory for every mixture of obsolete and recent entries incl. all-obsolete, and ClearChatHistory's selection. NOT encoded: the replay loop of joinedAction. broadcast is a recording model (real one marshals JSON). Trusted: go/ssa, gosmt, z3/cvc5.",
   technique="symbolic execution of go/ssa with SMT (symbolic message fields), counterexamples replayed natively",
   ref="4-C15")
 
